@@ -424,3 +424,720 @@ Proof.
       destruct (resolve_stack (split_on slash s) []) as [r|]; reflexivity.
     + symmetry. apply fast_path; assumption.
 Qed.
+
+(* ------------------------------------------------------------------ *)
+(* consequences of normpath_spec                                       *)
+(* ------------------------------------------------------------------ *)
+
+Lemma resolve_abs (abs : bool) l : Forall good l ->
+  resolve ((if abs then [[]] else []) ++ l) = Some l.
+Proof.
+  intro Hg. unfold resolve. destruct abs; simpl; rewrite resolve_good_all by exact Hg; reflexivity.
+Qed.
+
+Lemma cform_nf_gen abs cs : Forall good cs -> cform (to_path abs cs) = Some (abs, cs).
+Proof.
+  intro Hg. destruct cs as [|c cs'].
+  - destruct abs; reflexivity.
+  - unfold cform, comps.
+    rewrite split_to_path by first [exact Hg|discriminate].
+    rewrite resolve_abs by exact Hg.
+    rewrite starts_c_to_path by exact Hg. reflexivity.
+Qed.
+
+Lemma spec_normpath_cform s : spec_normpath s =
+  match cform s with
+  | None => Err IllegalBackReference
+  | Some f => Ok (to_path (fst f) (snd f))
+  end.
+Proof. unfold spec_normpath, cform. destruct (resolve (comps s)); reflexivity. Qed.
+
+Lemma normpath_nf abs cs : Forall good cs -> normpath (to_path abs cs) = Ok (to_path abs cs).
+Proof.
+  intro Hg. rewrite normpath_spec, spec_normpath_cform, cform_nf_gen by exact Hg. reflexivity.
+Qed.
+
+Lemma resolve_comps_good s cs : resolve (comps s) = Some cs -> Forall good cs.
+Proof.
+  intro E. apply (resolve_stack_good (comps s) [] cs);
+    [apply split_on_noslash|constructor|exact E].
+Qed.
+
+Theorem normpath_clean : forall s t, normpath s = Ok t ->
+  exists cs, Forall good cs /\ t = to_path (starts_c slash s) cs.
+Proof.
+  intros s t H. rewrite normpath_spec in H. unfold spec_normpath in H.
+  destruct (resolve (comps s)) as [cs|] eqn:E; [|discriminate].
+  inversion H; subst. exists cs. split; [|reflexivity].
+  apply (resolve_comps_good s). exact E.
+Qed.
+
+Theorem normalised_form : forall p,
+  normpath p = Ok p <-> exists abs cs, Forall good cs /\ p = to_path abs cs.
+Proof.
+  intro p. split.
+  - intro H. destruct (normpath_clean p p H) as [cs [Hg E]].
+    exists (starts_c slash p), cs. split; assumption.
+  - intros [abs [cs [Hg E]]]. subst p. apply normpath_nf. exact Hg.
+Qed.
+
+Theorem normpath_idem : forall s t, normpath s = Ok t -> normpath t = Ok t.
+Proof.
+  intros s t H. destruct (normpath_clean s t H) as [cs [Hg E]]. subst t.
+  apply normpath_nf. exact Hg.
+Qed.
+
+Theorem normpath_total : forall s, is_crash (normpath s) = false.
+Proof.
+  intro s. rewrite normpath_spec. unfold spec_normpath.
+  destruct (resolve (comps s)); reflexivity.
+Qed.
+
+Theorem normpath_raises_iff : forall s,
+  normpath s = Err IllegalBackReference <-> resolve (comps s) = None.
+Proof.
+  intro s. rewrite normpath_spec. unfold spec_normpath.
+  destruct (resolve (comps s)); split; intro H; try reflexivity; discriminate.
+Qed.
+
+(* ------------------------------------------------------------------ *)
+(* operations on normal forms (general statements)                     *)
+(* ------------------------------------------------------------------ *)
+
+Lemma list_snoc_case {A} (l : list A) : l = [] \/ exists d c, l = d ++ [c].
+Proof.
+  destruct l as [|x l]; [left; reflexivity|right].
+  assert (Hn : x :: l <> []) by discriminate.
+  destruct (exists_last Hn) as [d [c E]]. exists d, c. exact E.
+Qed.
+
+Lemma good_lstrip0 c : good c -> lstrip_c slash c = c.
+Proof. intro H. rewrite <- (app_nil_r c). apply good_lstrip. exact H. Qed.
+
+Lemma abspath_nf_gen abs cs : Forall good cs -> abspath (to_path abs cs) = to_path true cs.
+Proof.
+  intro Hg. unfold abspath. rewrite starts_c_to_path by exact Hg. destruct abs; reflexivity.
+Qed.
+
+Lemma relpath_nf_gen abs cs : Forall good cs -> relpath (to_path abs cs) = to_path false cs.
+Proof.
+  intro Hg. unfold relpath, to_path. destruct abs.
+  - change (lstrip_c slash ([slash] ++ join [slash] cs)) with (lstrip_c slash (join [slash] cs)).
+    apply join_good_lstrip. exact Hg.
+  - apply join_good_lstrip. exact Hg.
+Qed.
+
+Lemma is_empty_to_path abs cs : cs <> [] -> Forall good cs -> is_empty (to_path abs cs) = false.
+Proof.
+  intros Hn Hg. pose proof (to_path_ne abs cs Hn Hg) as H.
+  destruct (to_path abs cs); [congruence|reflexivity].
+Qed.
+
+Lemma psplit_snoc abs cs c : Forall good cs -> good c ->
+  psplit (to_path abs (cs ++ [c])) = (to_path abs cs, c).
+Proof.
+  intros Hg Hc. pose proof (good_noslash c Hc) as Hns.
+  destruct cs as [|d0 d'].
+  - unfold psplit. destruct abs.
+    + change (to_path true ([] ++ [c])) with ([] ++ slash :: c).
+      rewrite rsplit1_app by exact Hns. reflexivity.
+    + change (to_path false ([] ++ [c])) with c.
+      apply rsplit1_none in Hns. rewrite Hns. reflexivity.
+  - rewrite to_path_snoc by discriminate. unfold psplit.
+    rewrite rsplit1_app by exact Hns.
+    rewrite is_empty_to_path by first [discriminate|exact Hg]. reflexivity.
+Qed.
+
+Lemma split_nf_gen abs cs : Forall good cs -> psplit (to_path abs cs) = spec_split (abs, cs).
+Proof.
+  intro Hg. destruct (list_snoc_case cs) as [E|[d [c E]]]; subst cs.
+  - destruct abs; reflexivity.
+  - apply Forall_app in Hg as [Hd Hc]. inversion Hc as [|? ? Hc' _]; subst.
+    rewrite psplit_snoc by assumption.
+    unfold spec_split. cbn [fst snd]. rewrite rev_app_distr. simpl.
+    rewrite rev_involutive. reflexivity.
+Qed.
+
+Lemma join_scan_two p c : p <> [] -> good c ->
+  join_scan [p; c] false [] = (starts_c slash p, [p; c]).
+Proof.
+  intros Hp Hc. destruct p as [|x t]; [congruence|].
+  destruct (good_head c Hc) as [y [t' [E Hy]]]. subst c.
+  simpl. destruct (ceqb x slash); rewrite Hy; reflexivity.
+Qed.
+
+Lemma pjoin_eq ps absolute rel : join_scan ps false [] = (absolute, rel) ->
+  pjoin ps = let* path := normpath (join s_slash rel) in
+             Ok (if absolute then abspath path else path).
+Proof. intro H. unfold pjoin. rewrite H. reflexivity. Qed.
+
+Lemma pjoin_two_nf abs cs c : Forall good cs -> good c ->
+  pjoin [to_path abs cs; c] = Ok (to_path abs (cs ++ [c])).
+Proof.
+  intros Hg Hc.
+  assert (Hgc : Forall good (cs ++ [c])).
+  { apply Forall_app. split; [exact Hg|]. constructor; [exact Hc|constructor]. }
+  destruct cs as [|d0 d'].
+  - destruct abs.
+    + destruct (good_head c Hc) as [y [t' [E Hy]]].
+      change (to_path true []) with [slash].
+      assert (Ejs : join_scan [[slash]; c] false [] = (true, [[slash]; c])).
+      { subst c. simpl. rewrite Hy. reflexivity. }
+      erewrite pjoin_eq by exact Ejs.
+      change (join s_slash [[slash]; c]) with (slash :: slash :: c).
+      rewrite normpath_spec. unfold spec_normpath, comps.
+      assert (Es : split_on slash (slash :: slash :: c) = [[]; []; c]).
+      { simpl. rewrite split_on_nochar by (apply good_noslash; exact Hc). reflexivity. }
+      rewrite Es. unfold resolve.
+      change (resolve_stack [[]; []; c] []) with (resolve_stack [c] []).
+      rewrite resolve_good_all by (constructor; [exact Hc|constructor]).
+      reflexivity.
+    + destruct (good_head c Hc) as [y [t' [E Hy]]].
+      change (to_path false []) with (@nil char).
+      assert (Ejs : join_scan [[]; c] false [] = (false, [c])).
+      { subst c. simpl. rewrite Hy. reflexivity. }
+      erewrite pjoin_eq by exact Ejs. change (join s_slash [c]) with (to_path false [c]).
+      rewrite normpath_nf by (constructor; [exact Hc|constructor]). reflexivity.
+  - assert (Ejs : join_scan [to_path abs (d0 :: d'); c] false []
+                  = (abs, [to_path abs (d0 :: d'); c])).
+    { rewrite join_scan_two; [|apply to_path_ne; [discriminate|exact Hg]|exact Hc].
+      rewrite starts_c_to_path by exact Hg. reflexivity. }
+    erewrite pjoin_eq by exact Ejs.
+    change (join s_slash [to_path abs (d0 :: d'); c])
+      with (to_path abs (d0 :: d') ++ slash :: c).
+    rewrite <- to_path_snoc by discriminate.
+    rewrite normpath_nf by exact Hgc. cbn [bind].
+    destruct abs; [|reflexivity].
+    rewrite abspath_nf_gen by exact Hgc. reflexivity.
+Qed.
+
+Lemma join_split_nf_gen abs cs : Forall good cs ->
+  pjoin [dirname (to_path abs cs); basename (to_path abs cs)] = Ok (to_path abs cs).
+Proof.
+  intro Hg. destruct (list_snoc_case cs) as [E|[d [c E]]]; subst cs.
+  - destruct abs; reflexivity.
+  - apply Forall_app in Hg as [Hd Hc]. inversion Hc as [|? ? Hc' _]; subst.
+    unfold dirname, basename. rewrite psplit_snoc by assumption. cbn [fst snd].
+    apply pjoin_two_nf; assumption.
+Qed.
+
+Lemma combine_nf_gen abs cs c : Forall good cs -> good c -> lstrip_space c = c ->
+  combine (to_path abs cs) c = to_path abs (cs ++ [c]).
+Proof.
+  intros Hg Hc Hsp. unfold combine. destruct cs as [|d0 d'].
+  - destruct abs.
+    + change (to_path true []) with [slash]. cbn [is_empty].
+      change (rstrip_c slash [slash]) with (@nil char).
+      rewrite good_lstrip0 by exact Hc. reflexivity.
+    + change (to_path false []) with (@nil char). cbn [is_empty].
+      rewrite Hsp. reflexivity.
+  - rewrite is_empty_to_path by first [discriminate|exact Hg].
+    rewrite rstrip_to_path by first [discriminate|exact Hg].
+    rewrite good_lstrip0 by exact Hc.
+    rewrite to_path_snoc by discriminate. reflexivity.
+Qed.
+
+Lemma combine_split_nf_gen abs cs : Forall good cs ->
+  Forall (fun c => lstrip_space c = c) cs ->
+  combine (dirname (to_path abs cs)) (basename (to_path abs cs)) = to_path abs cs.
+Proof.
+  intros Hg Hsp. destruct (list_snoc_case cs) as [E|[d [c E]]]; subst cs.
+  - destruct abs; reflexivity.
+  - apply Forall_app in Hg as [Hd Hc]. inversion Hc as [|? ? Hc' _]; subst.
+    apply Forall_app in Hsp as [_ Hspc]. inversion Hspc as [|? ? Hspc' _]; subst.
+    unfold dirname, basename. rewrite psplit_snoc by assumption. cbn [fst snd].
+    apply combine_nf_gen; assumption.
+Qed.
+
+Definition parts_body (n : str) : list str :=
+  let components := strip_c slash n in
+  let head := if starts_c slash n then s_slash else s_dotslash in
+  if is_empty components then [head] else head :: split_on slash components.
+
+Lemma parts_unfold p : parts p = let* n := normpath p in Ok (parts_body n).
+Proof. reflexivity. Qed.
+
+Lemma parts_body_nf abs cs : Forall good cs ->
+  parts_body (to_path abs cs) = spec_parts (abs, cs).
+Proof.
+  intro Hg. unfold parts_body, strip_c.
+  change (lstrip_c slash (to_path abs cs)) with (relpath (to_path abs cs)).
+  rewrite relpath_nf_gen by exact Hg.
+  change (to_path false cs) with (join [slash] cs).
+  rewrite rstrip_join_good by exact Hg.
+  rewrite starts_c_to_path by exact Hg.
+  unfold spec_parts. cbn [fst snd].
+  destruct cs as [|c cs'].
+  - destruct abs; reflexivity.
+  - destruct (is_empty (join [slash] (c :: cs'))) eqn:E.
+    + apply join_good_empty in E; [discriminate|exact Hg].
+    + rewrite split_join; [destruct abs; reflexivity|discriminate|].
+      apply Forall_good_noslash. exact Hg.
+Qed.
+
+Lemma parts_nf_gen abs cs : Forall good cs ->
+  parts (to_path abs cs) = Ok (spec_parts (abs, cs)).
+Proof.
+  intro Hg. rewrite parts_unfold. rewrite normpath_nf by exact Hg. cbn [bind].
+  rewrite parts_body_nf by exact Hg. reflexivity.
+Qed.
+
+Section NormalForms.
+  Variables (abs : bool) (cs : list str).
+  Hypothesis Hcs : Forall good cs.
+  Let p := to_path abs cs.
+
+  Theorem cform_nf : cform p = Some (abs, cs).
+  Proof. apply cform_nf_gen. exact Hcs. Qed.
+
+  Theorem abspath_nf : abspath p = to_path true cs.
+  Proof. apply abspath_nf_gen. exact Hcs. Qed.
+
+  Theorem relpath_nf : relpath p = to_path false cs.
+  Proof. apply relpath_nf_gen. exact Hcs. Qed.
+
+  Theorem split_nf : psplit p = spec_split (abs, cs).
+  Proof. apply split_nf_gen. exact Hcs. Qed.
+
+  Theorem join_split_nf : pjoin [dirname p; basename p] = Ok p.
+  Proof. apply join_split_nf_gen. exact Hcs. Qed.
+
+  Theorem split_join_nf : forall c, good c ->
+    pjoin [p; c] = Ok (to_path abs (cs ++ [c])) /\ psplit (to_path abs (cs ++ [c])) = (p, c).
+  Proof.
+    intros c Hc. split.
+    - apply pjoin_two_nf; assumption.
+    - apply psplit_snoc; assumption.
+  Qed.
+
+  Theorem combine_nf : forall c, good c -> lstrip_space c = c ->
+    combine p c = to_path abs (cs ++ [c]).
+  Proof. intros c Hc Hsp. apply combine_nf_gen; assumption. Qed.
+
+  Theorem combine_split_nf : Forall (fun c => lstrip_space c = c) cs ->
+    combine (dirname p) (basename p) = p.
+  Proof. intro Hsp. apply combine_split_nf_gen; assumption. Qed.
+
+  Theorem parts_nf : parts p = Ok (spec_parts (abs, cs)).
+  Proof. apply parts_nf_gen. exact Hcs. Qed.
+End NormalForms.
+
+(* ------------------------------------------------------------------ *)
+(* iteratepath                                                         *)
+(* ------------------------------------------------------------------ *)
+
+Lemma is_empty_join_good c cs : Forall good (c :: cs) -> is_empty (join [slash] (c :: cs)) = false.
+Proof.
+  intro Hg. destruct (is_empty (join [slash] (c :: cs))) eqn:E; [|reflexivity].
+  apply join_good_empty in E; [discriminate|exact Hg].
+Qed.
+
+Lemma resolve_comps_nf abs cs : Forall good cs -> resolve (comps (to_path abs cs)) = Some cs.
+Proof.
+  intro Hg. pose proof (cform_nf_gen abs cs Hg) as H. unfold cform in H.
+  destruct (resolve (comps (to_path abs cs))) as [r|]; [|discriminate].
+  inversion H; subst. reflexivity.
+Qed.
+
+Theorem iteratepath_spec : forall s,
+  iteratepath s = match resolve (comps s) with None => Err IllegalBackReference | Some cs => Ok cs end.
+Proof.
+  intro s. unfold iteratepath. rewrite normpath_spec. unfold spec_normpath.
+  destruct (resolve (comps s)) as [cs|] eqn:E; [|reflexivity].
+  pose proof (resolve_comps_good s cs E) as Hg.
+  cbn [bind]. rewrite relpath_nf_gen by exact Hg.
+  change (to_path false cs) with (join [slash] cs).
+  destruct cs as [|c cs']; [reflexivity|].
+  rewrite is_empty_join_good by exact Hg.
+  rewrite split_join; [reflexivity|discriminate|apply Forall_good_noslash; exact Hg].
+Qed.
+
+Lemma iteratepath_nf abs cs : Forall good cs -> iteratepath (to_path abs cs) = Ok cs.
+Proof. intro Hg. rewrite iteratepath_spec, resolve_comps_nf by exact Hg. reflexivity. Qed.
+
+(* ------------------------------------------------------------------ *)
+(* recursepath                                                         *)
+(* ------------------------------------------------------------------ *)
+
+Fixpoint rp_res (done todo : list str) : list str :=
+  match todo with
+  | [] => []
+  | c :: t => to_path true (done ++ [c]) :: rp_res (done ++ [c]) t
+  end.
+
+Lemma prefixes_rp todo : forall done,
+  map (to_path true) (map (app done) (prefixes todo)) = to_path true done :: rp_res done todo.
+Proof.
+  induction todo as [|c t IH]; intro done; simpl.
+  - rewrite app_nil_r. reflexivity.
+  - rewrite app_nil_r. f_equal. rewrite <- IH. f_equal.
+    rewrite map_map. apply map_ext. intro k. rewrite <- app_assoc. reflexivity.
+Qed.
+
+Lemma prefixes_rp0 todo :
+  map (to_path true) (prefixes todo) = to_path true [] :: rp_res [] todo.
+Proof.
+  rewrite <- (prefixes_rp todo []). f_equal.
+  symmetry. erewrite map_ext; [apply map_id|]. intro k. reflexivity.
+Qed.
+
+Lemma find_c_app c z : has_char slash c = false -> find_c slash (c ++ slash :: z) = Some (length c).
+Proof.
+  induction c as [|x c IH]; intro H.
+  - reflexivity.
+  - change (has_char slash (x :: c)) with (ceqb slash x || has_char slash c) in H.
+    apply orb_false_iff in H as [H1 H2]. rewrite ceqb_sym in H1.
+    cbn [app find_c]. rewrite H1. rewrite IH by exact H2. reflexivity.
+Qed.
+
+Lemma firstn_len_app {A} (a b : list A) : firstn (length a) (a ++ b) = a.
+Proof. rewrite firstn_app, firstn_all, Nat.sub_diag, firstn_O, app_nil_r. reflexivity. Qed.
+
+Lemma skipn_len_app {A} (a b : list A) : skipn (length a) (a ++ b) = b.
+Proof. rewrite skipn_app, skipn_all, Nat.sub_diag. reflexivity. Qed.
+
+Lemma cat_length_ge l : length l <= length (cat l).
+Proof.
+  induction l as [|c l IH]; [simpl; lia|].
+  rewrite cat_cons, app_length. simpl. lia.
+Qed.
+
+Lemma cat_snoc done c : cat (done ++ [c]) = cat done ++ c ++ [slash].
+Proof. rewrite cat_app, cat_cons. reflexivity. Qed.
+
+Lemma rp_loop_cat todo : forall fuel done acc,
+  noslash slash todo -> length todo < fuel ->
+  rp_loop fuel (slash :: cat done ++ cat todo) (S (length (cat done))) acc
+  = Ok (acc ++ rp_res done todo).
+Proof.
+  induction todo as [|c t IH]; intros fuel done acc Hns Hf;
+    (destruct fuel as [|f]; [simpl in Hf; lia|]).
+  - cbn [rp_loop]. change (cat []) with (@nil char). rewrite app_nil_r.
+    cbn [length]. rewrite Nat.ltb_irrefl. simpl. rewrite app_nil_r. reflexivity.
+  - inversion Hns as [|? ? Hc Ht]; subst.
+    cbn [rp_loop].
+    assert (Hlt : S (length (cat done)) <? length (slash :: cat done ++ cat (c :: t)) = true).
+    { apply Nat.ltb_lt. cbn [length]. rewrite app_length, cat_cons, app_length. simpl. lia. }
+    rewrite Hlt.
+    assert (Hskip : skipn (S (length (cat done))) (slash :: cat done ++ cat (c :: t))
+                    = c ++ slash :: cat t).
+    { cbn [skipn]. rewrite skipn_len_app. apply cat_cons. }
+    rewrite Hskip. rewrite find_c_app by exact Hc.
+    assert (Hfirst : firstn (S (length (cat done)) + length c)
+                       (slash :: cat done ++ cat (c :: t)) = to_path true (done ++ [c])).
+    { cbn [Nat.add firstn]. unfold to_path. rewrite join_snoc_cat. rewrite cat_cons.
+      rewrite (app_assoc (cat done) c). rewrite <- app_length. rewrite firstn_len_app.
+      reflexivity. }
+    rewrite Hfirst.
+    assert (Epos : S (S (length (cat done)) + length c) = S (length (cat (done ++ [c])))).
+    { rewrite cat_snoc, !app_length. simpl. lia. }
+    rewrite Epos.
+    assert (Epath : slash :: cat done ++ cat (c :: t) = slash :: cat (done ++ [c]) ++ cat t).
+    { rewrite cat_snoc, cat_cons. rewrite <- !app_assoc. reflexivity. }
+    rewrite Epath.
+    rewrite IH; [|exact Ht|simpl in Hf; lia].
+    cbn [rp_res]. rewrite <- app_assoc. reflexivity.
+Qed.
+
+Theorem recursepath_spec : forall s,
+  match resolve (comps s) with
+  | None => recursepath s false = Err IllegalBackReference
+  | Some cs => cs <> [] \/ in_slash s = true ->
+               recursepath s false = Ok (map (to_path true) (prefixes cs))
+  end.
+Proof.
+  intro s. unfold recursepath.
+  destruct (in_slash s) eqn:Ein.
+  - apply in_slash_true in Ein as [E|E]; subst s; simpl; intros _; reflexivity.
+  - rewrite normpath_spec. unfold spec_normpath.
+    destruct (resolve (comps s)) as [cs|] eqn:E; [|reflexivity].
+    intros [Hn|Hn]; [|discriminate].
+    pose proof (resolve_comps_good s cs E) as Hg.
+    cbn [bind]. rewrite abspath_nf_gen by exact Hg.
+    assert (Epath : to_path true cs ++ s_slash = slash :: cat [] ++ cat cs).
+    { unfold to_path. rewrite <- app_assoc.
+      change (join [slash] cs ++ s_slash) with (join [slash] cs ++ [slash]).
+      rewrite join_cat by exact Hn. reflexivity. }
+    rewrite Epath.
+    pose proof (rp_loop_cat cs (S (length (slash :: cat [] ++ cat cs))) [] [s_slash]
+                  (Forall_good_noslash cs Hg)) as H.
+    change (S (length (cat []))) with 1 in H.
+    rewrite H.
+    + cbn [bind]. rewrite prefixes_rp0. reflexivity.
+    + pose proof (cat_length_ge cs) as Hl. simpl. lia.
+Qed.
+
+Theorem recursepath_nf : forall abs cs, Forall good cs ->
+  recursepath (to_path abs cs) false = Ok (map (to_path true) (prefixes cs)).
+Proof.
+  intros abs cs Hg. pose proof (recursepath_spec (to_path abs cs)) as H.
+  rewrite resolve_comps_nf in H by exact Hg. apply H.
+  destruct cs as [|c cs']; [right; destruct abs; reflexivity|left; discriminate].
+Qed.
+
+Theorem recursepath_reverse : forall s, recursepath s true = omap (@rev str) (recursepath s false).
+Proof.
+  intro s. unfold recursepath. destruct (in_slash s); [reflexivity|].
+  destruct (normpath s) as [n|e|k]; cbn [bind omap]; try reflexivity.
+  destruct (rp_loop (S (length (abspath n ++ s_slash))) (abspath n ++ s_slash) 1 [s_slash])
+    as [ps|e|k]; reflexivity.
+Qed.
+
+Theorem parts_spec : forall s,
+  parts s = match cform s with None => Err IllegalBackReference | Some f => Ok (spec_parts f) end.
+Proof.
+  intro s. rewrite parts_unfold, normpath_spec. unfold spec_normpath, cform.
+  destruct (resolve (comps s)) as [cs|] eqn:E; [|reflexivity].
+  cbn [bind]. rewrite parts_body_nf by (apply (resolve_comps_good s); exact E). reflexivity.
+Qed.
+
+(* ------------------------------------------------------------------ *)
+(* isbase                                                              *)
+(* ------------------------------------------------------------------ *)
+
+Lemma forcedir_abs cs : Forall good cs -> forcedir (to_path true cs) = slash :: cat cs.
+Proof.
+  intro Hg. destruct cs as [|c cs']; [reflexivity|].
+  unfold forcedir. rewrite ends_c_to_path by first [exact Hg|discriminate].
+  unfold to_path. rewrite <- app_assoc.
+  change (join [slash] (c :: cs') ++ s_slash) with (join [slash] (c :: cs') ++ [slash]).
+  rewrite join_cat by discriminate. reflexivity.
+Qed.
+
+Lemma noslash_head x t : has_char slash (x :: t) = false ->
+  ceqb x slash = false /\ has_char slash t = false.
+Proof.
+  change (has_char slash (x :: t)) with (ceqb slash x || has_char slash t).
+  intro H. apply orb_false_iff in H as [H1 H2]. rewrite ceqb_sym in H1. split; assumption.
+Qed.
+
+Lemma starts_with_comp x : forall y A B,
+  has_char slash x = false -> has_char slash y = false ->
+  starts_with (x ++ slash :: A) (y ++ slash :: B) = str_eqb x y && starts_with A B.
+Proof.
+  induction x as [|a x IH]; intros y A B Hx Hy.
+  - destruct y as [|b y].
+    + cbn [app starts_with str_eqb]. rewrite ceqb_refl. reflexivity.
+    + apply noslash_head in Hy as [Hb _].
+      cbn [app starts_with str_eqb]. rewrite ceqb_sym, Hb. reflexivity.
+  - apply noslash_head in Hx as [Ha Hx].
+    destruct y as [|b y].
+    + cbn [app starts_with str_eqb]. rewrite Ha. reflexivity.
+    + apply noslash_head in Hy as [_ Hy].
+      cbn [app starts_with str_eqb]. rewrite IH by assumption.
+      rewrite andb_assoc. reflexivity.
+Qed.
+
+Lemma starts_with_cat cs1 : forall cs2, noslash slash cs1 -> noslash slash cs2 ->
+  starts_with (cat cs1) (cat cs2) = cprefix cs1 cs2.
+Proof.
+  induction cs1 as [|x cs1 IH]; intros cs2 H1 H2; [reflexivity|].
+  inversion H1 as [|? ? Hx H1']; subst.
+  destruct cs2 as [|y cs2].
+  - rewrite cat_cons. change (cat []) with (@nil char).
+    destruct x; reflexivity.
+  - inversion H2 as [|? ? Hy H2']; subst.
+    rewrite !cat_cons. rewrite starts_with_comp by assumption.
+    rewrite IH by assumption. reflexivity.
+Qed.
+
+Theorem isbase_nf : forall a1 cs1 a2 cs2, Forall good cs1 -> Forall good cs2 ->
+  isbase (to_path a1 cs1) (to_path a2 cs2) = cprefix cs1 cs2.
+Proof.
+  intros a1 cs1 a2 cs2 H1 H2. unfold isbase.
+  rewrite !abspath_nf_gen by assumption. rewrite !forcedir_abs by assumption.
+  cbn [starts_with]. rewrite ceqb_refl. cbn [andb].
+  apply starts_with_cat; apply Forall_good_noslash; assumption.
+Qed.
+
+(* ------------------------------------------------------------------ *)
+(* isparent / frombase                                                 *)
+(* ------------------------------------------------------------------ *)
+
+Lemma zipchk_cprefix a : forall b,
+  (if length b <? length a then false else zip_all_eq a b) = cprefix a b.
+Proof.
+  induction a as [|x a IH]; intros b.
+  - destruct b; reflexivity.
+  - destruct b as [|y b]; [reflexivity|].
+    cbn [length zip_all_eq cprefix]. rewrite <- IH.
+    change (S (length b) <? S (length a)) with (length b <? length a).
+    destruct (length b <? length a); [rewrite andb_false_r|]; reflexivity.
+Qed.
+
+Lemma isparent_cprefix p1 p2 :
+  isparent p1 p2 = cprefix (rev (pop_empty_rev (rev (split_on slash p1)))) (split_on slash p2).
+Proof. unfold isparent. apply zipchk_cprefix. Qed.
+
+Lemma bits1_cons (abs : bool) cs : Forall good cs -> cs <> [] ->
+  rev (pop_empty_rev (rev (split_on slash (to_path abs cs)))) = (if abs then [[]] else []) ++ cs.
+Proof.
+  intros Hg Hn. rewrite split_to_path by assumption.
+  destruct (exists_last Hn) as [d [c E]]. subst cs.
+  apply Forall_app in Hg as [_ Hc]. inversion Hc as [|? ? Hc' _]; subst.
+  rewrite app_assoc. rewrite rev_app_distr. cbn [rev app].
+  destruct c as [|x c']; [exfalso; apply (good_ne [] Hc'); reflexivity|].
+  cbn [pop_empty_rev is_empty]. cbn [rev]. rewrite rev_involutive. reflexivity.
+Qed.
+
+Lemma split_nf_cases (abs : bool) cs : Forall good cs ->
+  split_on slash (to_path abs cs)
+  = match cs with
+    | [] => if abs then [[]; []] else [[]]
+    | _ => (if abs then [[]] else []) ++ cs
+    end.
+Proof.
+  intro Hg. destruct cs as [|c cs'].
+  - destruct abs; reflexivity.
+  - apply split_to_path; [exact Hg|discriminate].
+Qed.
+
+Lemma str_eqb_nil_r c : c <> [] -> str_eqb c [] = false.
+Proof. intro H. destruct c; [congruence|reflexivity]. Qed.
+
+Lemma str_eqb_nil_l c : c <> [] -> str_eqb [] c = false.
+Proof. intro H. destruct c; [congruence|reflexivity]. Qed.
+
+Theorem isparent_nf : forall a1 cs1 a2 cs2, Forall good cs1 -> Forall good cs2 ->
+  isparent (to_path a1 cs1) (to_path a2 cs2) = spec_isparent (a1, cs1) (a2, cs2).
+Proof.
+  intros a1 cs1 a2 cs2 H1 H2. rewrite isparent_cprefix.
+  unfold spec_isparent. cbn [fst snd].
+  destruct cs1 as [|c cs1'].
+  - destruct a1; reflexivity.
+  - rewrite bits1_cons by first [exact H1|discriminate].
+    rewrite split_nf_cases by exact H2.
+    inversion H1 as [|? ? Hc _]; subst. pose proof (good_ne c Hc) as Hcn.
+    destruct cs2 as [|d cs2'].
+    + destruct a1, a2; cbn [app cprefix]; rewrite ?str_eqb_refl, ?str_eqb_nil_r by exact Hcn;
+        reflexivity.
+    + inversion H2 as [|? ? Hd _]; subst. pose proof (good_ne d Hd) as Hdn.
+      destruct a1, a2; cbn [app cprefix Bool.eqb].
+      * rewrite str_eqb_refl, andb_true_r. reflexivity.
+      * rewrite str_eqb_nil_l by exact Hdn. rewrite andb_false_r. reflexivity.
+      * rewrite str_eqb_nil_r by exact Hcn. rewrite andb_false_r. reflexivity.
+      * rewrite andb_true_r. reflexivity.
+Qed.
+
+Lemma cprefix_app a : forall b, cprefix a b = true -> exists t, b = a ++ t.
+Proof.
+  induction a as [|x a IH]; intros b H.
+  - exists b. reflexivity.
+  - destruct b as [|y b]; [discriminate|].
+    cbn [cprefix] in H. apply andb_true_iff in H as [Hxy H].
+    apply str_eqb_eq in Hxy. subst y.
+    destruct (IH b H) as [t E]. subst b. exists t. reflexivity.
+Qed.
+
+Lemma join_app_prefix sep a : forall b, exists r, join sep (a ++ b) = join sep a ++ r.
+Proof.
+  induction a as [|x a IH]; intros b.
+  - exists (join sep b). reflexivity.
+  - destruct a as [|y a].
+    + destruct (join_head sep x b) as [t E]. exists t. exact E.
+    + destruct (IH b) as [r E].
+      exists r. change ((x :: y :: a) ++ b) with (x :: ((y :: a) ++ b)).
+      rewrite join_cons by discriminate. rewrite E.
+      rewrite (join_cons sep x (y :: a)) by discriminate.
+      rewrite <- !app_assoc. reflexivity.
+Qed.
+
+Theorem frombase_nf : forall a cs1 cs2, Forall good cs1 -> Forall good cs2 ->
+  cprefix cs1 cs2 = true ->
+  exists r, frombase (to_path a cs1) (to_path a cs2) = Ok r /\ to_path a cs1 ++ r = to_path a cs2.
+Proof.
+  intros a cs1 cs2 H1 H2 Hp. unfold frombase.
+  rewrite isparent_nf by assumption. unfold spec_isparent. cbn [fst snd].
+  rewrite Hp. rewrite eqb_reflx.
+  assert (Et : (match cs1 with [] => true | _ :: _ => true end) = true) by (destruct cs1; reflexivity).
+  rewrite Et. cbn [andb].
+  destruct (cprefix_app cs1 cs2 Hp) as [t E]. subst cs2.
+  destruct (join_app_prefix [slash] cs1 t) as [r Er].
+  assert (E : to_path a (cs1 ++ t) = to_path a cs1 ++ r).
+  { unfold to_path. rewrite Er. rewrite app_assoc. reflexivity. }
+  exists (skipn (length (to_path a cs1)) (to_path a (cs1 ++ t))). split; [reflexivity|].
+  rewrite E. rewrite skipn_len_app. reflexivity.
+Qed.
+
+(* ------------------------------------------------------------------ *)
+(* issamedir / relativefrom                                            *)
+(* ------------------------------------------------------------------ *)
+
+Theorem issamedir_nf : forall a1 cs1 a2 cs2, Forall good cs1 -> Forall good cs2 ->
+  issamedir (to_path a1 cs1) (to_path a2 cs2) = Ok (spec_issamedir (a1, cs1) (a2, cs2)).
+Proof.
+  intros a1 cs1 a2 cs2 H1 H2. unfold issamedir.
+  rewrite !normpath_nf by assumption. cbn [bind].
+  unfold dirname. rewrite !split_nf_gen by assumption. reflexivity.
+Qed.
+
+Lemma common_len_le a : forall b, common_len a b <= length a.
+Proof.
+  induction a as [|x a IH]; intros b; [simpl; lia|].
+  destruct b as [|y b]; [simpl; lia|].
+  cbn [common_len]. destruct (str_eqb x y); [|lia].
+  specialize (IH b). simpl. lia.
+Qed.
+
+Lemma common_len_firstn a : forall b,
+  firstn (common_len a b) a = firstn (common_len a b) b.
+Proof.
+  induction a as [|x a IH]; intros b; [destruct b; reflexivity|].
+  destruct b as [|y b]; [reflexivity|].
+  cbn [common_len]. destruct (str_eqb x y) eqn:E; [|reflexivity].
+  apply str_eqb_eq in E. subst y. cbn [firstn]. rewrite IH. reflexivity.
+Qed.
+
+Lemma resolve_pops k : forall rest st, k <= length st ->
+  resolve_stack (repeat s_dotdot k ++ rest) st = resolve_stack rest (skipn k st).
+Proof.
+  induction k as [|k IH]; intros rest st Hk; [reflexivity|].
+  destruct st as [|s st]; [simpl in Hk; lia|].
+  cbn [repeat app resolve_stack skipn].
+  change (c_empty s_dotdot || c_dot s_dotdot) with false.
+  change (c_dotdot s_dotdot) with true. cbn iota.
+  apply IH. simpl in Hk. lia.
+Qed.
+
+Lemma resolve_comps_join X L : noslash slash L ->
+  resolve (X ++ comps (join [slash] L)) = resolve (X ++ L).
+Proof.
+  intro Hns. unfold resolve, comps. destruct L as [|c L'].
+  - change (split_on slash (join [slash] [])) with [@nil char].
+    rewrite resolve_snoc_empty, app_nil_r. reflexivity.
+  - rewrite split_join; [reflexivity|discriminate|exact Hns].
+Qed.
+
+Lemma Forall_skipn_good n cs : Forall good cs -> Forall good (skipn n cs).
+Proof.
+  intro Hg. rewrite <- (firstn_skipn n cs) in Hg. apply Forall_app in Hg as [_ H]. exact H.
+Qed.
+
+Theorem relativefrom_nf : forall a1 csb a2 csp, Forall good csb -> Forall good csp ->
+  exists r, relativefrom (to_path a1 csb) (to_path a2 csp) = Ok r
+            /\ resolve (csb ++ comps r) = Some csp.
+Proof.
+  intros a1 csb a2 csp Hb Hp. unfold relativefrom.
+  rewrite !iteratepath_nf by assumption. cbn [bind].
+  eexists. split; [reflexivity|].
+  remember (common_len csb csp) as n eqn:En.
+  pose proof (common_len_le csb csp) as Hle. rewrite <- En in Hle.
+  pose proof (common_len_firstn csb csp) as Hfn. rewrite <- En in Hfn.
+  pose proof (Forall_skipn_good n csp Hp) as Hrest.
+  change (join s_slash (repeat s_dotdot (length csb - n) ++ skipn n csp))
+    with (join [slash] (repeat s_dotdot (length csb - n) ++ skipn n csp)).
+  rewrite resolve_comps_join.
+  - unfold resolve. rewrite resolve_good by exact Hb. rewrite app_nil_r.
+    rewrite resolve_pops by (rewrite rev_length; lia).
+    rewrite skipn_rev.
+    replace (length csb - (length csb - n)) with n by lia.
+    rewrite resolve_good_all by exact Hrest.
+    rewrite rev_involutive, Hfn, firstn_skipn. reflexivity.
+  - unfold noslash. apply Forall_app. split.
+    + apply Forall_forall. intros y Hy. apply repeat_spec in Hy. subst y. reflexivity.
+    + apply Forall_good_noslash. exact Hrest.
+Qed.
+
+Example isbase_not_string_prefix :
+  isbase [slash; 97%N] [slash; 97%N; 98%N] = false.
+Proof. reflexivity. Qed.
